@@ -307,6 +307,8 @@ def run(E: Engine, rep: Report, tier: str) -> dict:
     # (a) every replayed call that NAMES a channel has a DMM name translated to the name the DMM got in the new sequence
     #     (a DMM's name derives from its ID in the device): delay and align included, not only the DMM configuration calls
     names_cmp = {x[3][1] if x[2][0] != "const" else x[2][1] for l in Sb.log for x in _symS.subterms(l.cond) if x[0] == "cmp" and x[1] == "Eq" and any(y[0] == "const" and isinstance(y[1], str) for y in (x[2], x[3]))}
+    # ... or by membership in a (folded) tuple of call names: `call.name in ("delay", "align")`
+    names_cmp |= {c_[1] for l in Sb.log for x in _symS.subterms(l.cond) if x[0] == "cmp" and x[1] == "In" and mentions(x[2], "name") and unobj(x[3])[0] in ("tuple", "list", "set") for c_ in unobj(x[3])[1:] if c_[0] == "const" and isinstance(c_[1], str)}
     rep.check({"delay", "align"} <= names_cmp, "TABLE", "switch_device|dmm-name-translated-in-delay-and-align", "the replay has branches for call.name == 'delay' / 'align' that translate DMM names", f"the replay translates channel names for {sorted(n for n in names_cmp if isinstance(n, str))} only: delay(..., 'dmm_0') and align('dmm_1', ...) are replayed with the OLD DMM name, so when the matched DMMs have other IDs the delay lands on another DMM (or the switch raises 'Use the name of a declared channel')", E.where(bsm))
     # (b) the channel map is read for a DMM only when that DMM was declared (in XY mode an SLM mask declares none)
     cm_reads = [l for l in Sb.log if l.kind in ("store", "assign", "call") and l.value is not None and any(t[0] == "idx" and t[1] == ("name", "channel_match") and any(u[0] == "call" and u[1] == ("name", "_get_dmm_name") for u in _symS.subterms(t[2])) for t in _symS.subterms(l.value))]
